@@ -51,7 +51,7 @@ SPEC = {
 
 CLAIM = {
     "category": "proof",
-    "text": "Lean theorems about the model `leftFactor` (mirror of left_factor with the repaired find_prefix: first-occurring largest group wins): factor_step_preserves_lang (one factor_out_prefix step preserves the language for every prefix shared or not), left_factor_preserves_lang, left_factor_no_common_first (on exit no two non-empty alternatives of a non-terminal start with the same symbol), helper names fresh; termination with fuel (left_factor_terminates_partial). Tied to the code by exact differential runs on the public left_factor; every implementation reply is also judged by the oracle (member both ways on all strings ≤ n, first-symbol clash, name clash).",
+    "text": "Lean theorems about the model `leftFactor` (mirror of left_factor with the repaired find_prefix: first-occurring largest group wins): factor_step_preserves_lang (one factor_out_prefix step preserves the language for every prefix shared or not), left_factor_preserves_lang, left_factor_no_common_first (on exit no two non-empty alternatives of a non-terminal start with the same symbol), helper names fresh; termination with fuel: one round never fails (factor_out_total, using that generate_name is total), results are fuel-independent once the fuel suffices (left_factor_terminates_partial); a bound on the number of rounds is NOT proved (LeftFactorTerminates is stated as a def). Tied to the code by exact differential runs on the public left_factor; every implementation reply is also judged by the oracle (member both ways on all strings ≤ n, first-symbol clash, name clash).",
     "design_ref": "DESIGN.md §6 C10",
     "note": "Trusted: Lean kernel, faithfulness of the hand-written model as observed by the differential run, harness and orchestrator.",
     "technique": "Lean 4 proof over hand-written model + differential correspondence check",
